@@ -315,6 +315,7 @@ PROPS["C13"] = dict(
 
 PROPS["C12"] = dict(
     module="RaptorModel.Props.C12",
+    extra_theorem_modules=["RaptorModel.Props.C12Ext"],
     harnesses=["h_rs"],
     configs=rs_configs("C12", [1, 2, 3, 4, 6], [1, 2, 3, 4, 5, 6, 8, 12, 16]),
     rule=("M-matrix-like systems (positive diagonal, non-positive dyadic off-diagonals, symmetric and non-symmetric patterns, rows with zero row sum, "
@@ -359,6 +360,7 @@ PROPS["C16"] = dict(
 
 PROPS["C19"] = dict(
     module="RaptorModel.Props.C19",
+    extra_theorem_modules=["RaptorModel.Props.C19MM"],
     harnesses=["h_c19"],
     configs=simple("h_c19", [1, 2, 3, 4], [1, 2, 3, 4, 5, 7, 8, 16]),
     rule=("grids of 1-3 dimensions with unequal extents 1..5 (12 thorough; 6 in 3-D) and symmetric stencils with an arbitrary zero pattern, "
